@@ -43,8 +43,8 @@ func init() { register("C15", c15{}) }
 var c15Dt = map[string]string{"str": "str", "generic": "*", "json": "json", "jsonl": "jsonl",
 	"yaml": "yaml", "paths": "paths", "path": "path", "xml": "xml"}
 var c15Coq = map[string]string{"str": "TStr", "generic": "TGeneric", "json": "TJson", "jsonl": "TJsonl",
-	"yaml": "(TOther 1)", "paths": "(TOther 2)", "path": "(TOther 3)", "xml": "(TOther 4)"}
-var c15Main = []string{"str", "generic", "json", "jsonl"}
+	"yaml": "TYaml", "paths": "TPaths", "path": "(TOther 3)", "xml": "(TOther 4)"}
+var c15Main = []string{"str", "generic", "json", "jsonl", "yaml", "paths"}
 
 // ---- rendering of (possibly long) elements as list chunk ----
 func c15Chunks(s string) string {
@@ -103,9 +103,12 @@ func c15Alphabet(ty string, rng *rand.Rand) []string {
 		al = append(al, c15Invalid...)
 		al = append(al, "\t", "\r", "\v", "\f")
 	case "generic":
-		al = append(al, "\xc3", "\x80", "\xe2\x82", "\r")
-	case "json":
+		al = append(al, "\xc3", "\x80", "\xe2\x82", "\r", "\xff")
+	case "json", "yaml":
 		al = append(al, "\t", "\r", "\v", "\f")
+	case "paths":
+		al = append(al, c15Invalid...)
+		al = append(al, "\t", "\r", "\v", "\f", "/", "/usr/bin", ".")
 	}
 	return al
 }
@@ -134,12 +137,20 @@ func c15MakeLegal(ty, s string) string {
 			s = "x" + s + "x"
 		}
 	case "generic":
-		s = strings.NewReplacer("\t", "", "\v", "", "\f", "", "\xff", "").Replace(s)
+		s = strings.NewReplacer("\t", "", "\v", "", "\f", "").Replace(s)
 		if strings.HasSuffix(s, "\r") {
 			s += "x"
 		}
-	case "json":
+	case "json", "yaml":
 		s = strings.ToValidUTF8(s, "")
+		if strings.HasSuffix(s, "\r") {
+			s += "x"
+		}
+	case "paths":
+		s = strings.ReplaceAll(s, ":", "")
+		if strings.HasSuffix(s, "\r") {
+			s += "x"
+		}
 	}
 	return s
 }
@@ -171,7 +182,7 @@ func (c15) Gen(seed int64, tier string, emit func(any)) {
 		// outside the legal alphabet: the model must still predict the implementation
 		for _, in := range [][]string{{" a"}, {"a "}, {"\ta\t", "b"}, {"a\r"}, {"a\nb"}, {"a", "\n", "b"}, {" "}, {"a "}, {" a"},
 			{big + "x"}, {"a", big + "xy", "b"}, {"\xff"}, {"a\xc3"}, {"\xe2\x82", "ok"}} {
-			if ty == "json" && strings.Contains(strings.Join(in, ""), "\n") {
+			if (ty == "json" || ty == "yaml" || ty == "paths") && strings.Contains(strings.Join(in, ""), "\n") {
 				continue // a multi-line json element makes the foreach output ambiguous
 			}
 			emit(c15Case{Ty: ty, In: bstrs(in), Legal: false})
@@ -181,11 +192,17 @@ func (c15) Gen(seed int64, tier string, emit func(any)) {
 	emit(c15Case{Ty: "generic", In: bstrs([]string{"a\vb", "c"}), Legal: false})
 	emit(c15Case{Ty: "generic", In: bstrs([]string{"a\fb", "c"}), Legal: false})
 	emit(c15Case{Ty: "generic", In: bstrs([]string{"a\xffb", "c\td"}), Legal: false})
-	for _, ty := range []string{"yaml", "paths", "path", "xml"} {
+	emit(c15Case{Ty: "generic", In: bstrs([]string{"a\xffb", "c", "d\xff"}), Legal: true})
+	emit(c15Case{Ty: "generic", In: bstrs([]string{"a\f", "\fb", "\f"}), Legal: true})
+	emit(c15Case{Ty: "generic", In: bstrs([]string{"a\xff", "b\fc"}), Legal: true})
+	emit(c15Case{Ty: "yaml", In: bstrs([]string{"", "1", "true", "null", "~", "a: b", "- c", "#d", " a ", "'", "\"q\"", "[1]", "{a}", "*x", "&y", "!t", "yes", "0x10", "2001-01-01", ":", "-", "?", "|", ">"}), Legal: true})
+	emit(c15Case{Ty: "yaml", In: bstrs([]string{"a\xffb"}), Legal: false})
+	emit(c15Case{Ty: "paths", In: bstrs([]string{"/usr/bin", "/bin", ".", ""}), Legal: true})
+	emit(c15Case{Ty: "paths", In: bstrs([]string{"a:b", "c"}), Legal: false})
+	for _, ty := range []string{"path", "xml"} {
 		emit(c15Case{Ty: ty, In: bstrs([]string{"a"}), Legal: true})
 		emit(c15Case{Ty: ty, In: bstrs([]string{"alpha", "beta", "gamma"}), Legal: true})
 	}
-	emit(c15Case{Ty: "yaml", In: bstrs([]string{}), Legal: true})
 
 	rng := rand.New(rand.NewSource(seed))
 	n := 700
@@ -195,8 +212,8 @@ func (c15) Gen(seed int64, tier string, emit func(any)) {
 	for i := 0; i < n; i++ {
 		r := rng.Intn(100)
 		switch {
-		case r < 6: // other registered types, conservative alphabet
-			ty := []string{"yaml", "paths", "path", "xml"}[rng.Intn(4)]
+		case r < 3: // other registered types, conservative alphabet
+			ty := []string{"path", "xml"}[rng.Intn(2)]
 			k := 1 + rng.Intn(8)
 			in := make([]string, k)
 			for j := range in {
@@ -204,7 +221,7 @@ func (c15) Gen(seed int64, tier string, emit func(any)) {
 			}
 			emit(c15Case{Ty: ty, In: bstrs(in), Legal: true})
 		case r < 16: // outside the legal alphabet
-			ty := c15Main[rng.Intn(4)]
+			ty := c15Main[rng.Intn(len(c15Main))]
 			al := c15Alphabet(ty, rng)
 			k := 1 + rng.Intn(6)
 			in := make([]string, k)
@@ -225,12 +242,12 @@ func (c15) Gen(seed int64, tier string, emit func(any)) {
 			case 4:
 				in[j] = sp + sp + in[j] + sp
 			}
-			if ty == "json" { // multi-line json elements would make the foreach output ambiguous
+			if ty == "json" || ty == "yaml" || ty == "paths" { // multi-line elements would make the foreach output ambiguous
 				in[j] = strings.ReplaceAll(in[j], "\n", "")
 			}
 			emit(c15Case{Ty: ty, In: bstrs(in), Legal: false})
 		default:
-			ty := c15Main[rng.Intn(4)]
+			ty := c15Main[rng.Intn(len(c15Main))]
 			al := c15Alphabet(ty, rng)
 			docs := ty == "jsonl" && rng.Intn(3) != 0
 			k := c15ListLen(rng)
@@ -249,6 +266,10 @@ func (c15) Gen(seed int64, tier string, emit func(any)) {
 					in[j] = "x"
 				}
 				total += len(in[j])
+			}
+			if ty == "generic" && k > 0 && rng.Intn(10) == 0 {
+				j := rng.Intn(k)
+				in[j] = in[j] + "\f" + arrPick(rng, c15Plain, rng.Intn(3))
 			}
 			emit(c15Case{Ty: ty, In: bstrs(in), Legal: true})
 		}
